@@ -4,6 +4,10 @@
    Builder::build_from_reader of noodles-util's alignment and variant reader builders as pure
    functions of the first fill_buf window, and the leading bytes the generic writers emit.
 
+   The model follows the tree after the repairs of F13 (detect-short-input-error) and F14
+   (detect-sam-as-cram): read at most 4 (3) inflated bytes, and "CRAM" followed by a graphic byte or
+   TAB is SAM text.
+
    PARTIAL: (1) DEFLATE is not modelled -- BGZF compression [bgzf] and flate2's MultiGzDecoder
    over a window [gunzip] are universally quantified functions constrained by the three premises
    H_magic / H_prefix / H_whole of each theorem (validated against the real libraries on every
@@ -16,29 +20,34 @@ Import ListNotations.
 Open Scope N_scope.
 
 (* The statement one would like: every stream of the generic writer, whatever the first read
-   delivers, is detected as written.  It is FALSE for the faithful model (see the _refuted
-   lemmas below); the theorems that follow carry exactly the side conditions the proof needs. *)
+   delivers, is detected as written.  It is FALSE for the faithful model (detection sees only the
+   first fill_buf window: c20_short_window_refuted); the theorems that follow carry exactly the
+   side conditions the proof needs. *)
 Definition c20_detect_written_full_statement : Prop :=
   forall (bgzf : list N -> list N) (gunzip : list N -> inflated),
     (forall p, exists r, bgzf p = 31 :: 139 :: r) ->
     (forall p m, exists n, avail (gunzip (firstn m (bgzf p))) = firstn n p) ->
-    (forall p, gunzip (bgzf p) = mk_inflated p UnexpectedEof) ->
+    (forall p, gunzip (bgzf p) = mk_inflated p None) ->
     forall f c amb s k, (1 <= k)%nat -> written_a bgzf f c amb s ->
       detect_a (window s k) (gunzip (window s k)) = Ok (f, c).
 
 (* Alignments.  For every stream s the generic alignment writer emits for (format f,
    compression c) -- SAM text with any header lines and any records whose names the SAM writer
-   accepts, BAM, CRAM, each raw or BGZF-compressed -- outside the F14 class (amb = false:
-   not a header-less SAM whose first read name starts with "CRAM"), and every size k of the first
-   read: the builder decides exactly (f, c), provided the first window is large enough:
-     raw SAM: no condition at all;  raw BAM / CRAM: k >= 4;
-     BGZF: k >= 2 and the decoder gets 4 bytes out of the window (excludes F13 and short reads). *)
+   accepts, BAM, CRAM with a major version that is a control byte other than TAB (1..4 exist),
+   each raw or BGZF-compressed -- and every size k of the first read: the builder decides exactly
+   (f, c), provided the first window is large enough:
+     raw SAM: no condition, except k >= 5 in the class amb = true (header-less and the first read
+              name starts with "CRAM");
+     raw BAM / CRAM: k >= 4;
+     BGZF: k >= 2 and either the decoder gets 4 bytes out of the window or the window is the
+           whole stream. *)
 Theorem c20_detect_written_partial :
   forall (bgzf : list N -> list N) (gunzip : list N -> inflated)
     (H_magic : forall p, exists r, bgzf p = 31 :: 139 :: r)
-    (H_prefix : forall p m, exists n, avail (gunzip (firstn m (bgzf p))) = firstn n p),
-  forall f c s k,
-    written_a bgzf f c false s -> window_ok_a gunzip f c s k ->
+    (H_prefix : forall p m, exists n, avail (gunzip (firstn m (bgzf p))) = firstn n p)
+    (H_whole : forall p, gunzip (bgzf p) = mk_inflated p None),
+  forall f c amb s k,
+    written_a bgzf f c amb s -> window_ok_a gunzip f c amb s k ->
     detect_a (window s k) (gunzip (window s k)) = Ok (f, c).
 Proof. exact detect_written_a_partial. Qed.
 Print Assumptions c20_detect_written_partial.
@@ -47,23 +56,24 @@ Print Assumptions c20_detect_written_partial.
 Theorem c20_detect_written_variant_partial :
   forall (bgzf : list N -> list N) (gunzip : list N -> inflated)
     (H_magic : forall p, exists r, bgzf p = 31 :: 139 :: r)
-    (H_prefix : forall p m, exists n, avail (gunzip (firstn m (bgzf p))) = firstn n p),
+    (H_prefix : forall p m, exists n, avail (gunzip (firstn m (bgzf p))) = firstn n p)
+    (H_whole : forall p, gunzip (bgzf p) = mk_inflated p None),
   forall f c s k,
     written_v bgzf f c s -> window_ok_v gunzip f c s k ->
     detect_v (window s k) (gunzip (window s k)) = Ok (f, c).
 Proof. exact detect_written_v_partial. Qed.
 Print Assumptions c20_detect_written_variant_partial.
 
-(* When the first read delivers the whole stream (it fits BufReader's 8 KiB buffer), the only
-   side condition left is F13: a BGZF-compressed SAM must have at least 4 bytes of text. *)
+(* When the first read delivers the whole stream (it fits BufReader's 8 KiB buffer) there is NO
+   side condition: this includes the BGZF-compressed SAM of an empty header and no records
+   (formerly F13) and the header-less SAM whose first read is named CRAM... (formerly F14). *)
 Theorem c20_detect_written_whole_stream :
   forall (bgzf : list N -> list N) (gunzip : list N -> inflated)
     (H_magic : forall p, exists r, bgzf p = 31 :: 139 :: r)
     (H_prefix : forall p m, exists n, avail (gunzip (firstn m (bgzf p))) = firstn n p)
-    (H_whole : forall p, gunzip (bgzf p) = mk_inflated p UnexpectedEof),
-  forall f c s k,
-    written_a bgzf f c false s -> (length s <= Nat.min k BUF_CAP)%nat ->
-    (forall hdr recs, s = bgzf (sam_text hdr recs) -> (4 <= length (sam_text hdr recs))%nat) ->
+    (H_whole : forall p, gunzip (bgzf p) = mk_inflated p None),
+  forall f c amb s k,
+    written_a bgzf f c amb s -> (length s <= Nat.min k BUF_CAP)%nat ->
     detect_a (window s k) (gunzip (window s k)) = Ok (f, c).
 Proof. exact detect_written_whole_a. Qed.
 Print Assumptions c20_detect_written_whole_stream.
@@ -72,20 +82,21 @@ Theorem c20_detect_written_whole_stream_variant :
   forall (bgzf : list N -> list N) (gunzip : list N -> inflated)
     (H_magic : forall p, exists r, bgzf p = 31 :: 139 :: r)
     (H_prefix : forall p m, exists n, avail (gunzip (firstn m (bgzf p))) = firstn n p)
-    (H_whole : forall p, gunzip (bgzf p) = mk_inflated p UnexpectedEof),
+    (H_whole : forall p, gunzip (bgzf p) = mk_inflated p None),
   forall f c s k,
     written_v bgzf f c s -> (length s <= Nat.min k BUF_CAP)%nat ->
     detect_v (window s k) (gunzip (window s k)) = Ok (f, c).
 Proof. exact detect_written_whole_v. Qed.
 Print Assumptions c20_detect_written_whole_stream_variant.
 
-(* SAM text accepted by the SAM writer never begins with the gzip or the BAM magic, and begins
-   with the CRAM magic only in the F14 class *)
+(* SAM text accepted by the SAM writer never begins with the gzip or the BAM magic; it begins with
+   the CRAM magic only in the amb class, and then the next byte is a graphic character or TAB *)
 Theorem c20_sam_text_not_magic :
   forall hdr recs, forallb sam_line_ok recs = true ->
     (forall r, sam_text hdr recs <> 31 :: 139 :: r) /\
     (forall r, sam_text hdr recs <> BAM_MAGIC ++ r) /\
-    (sam_first_name_cram hdr recs = false -> forall r, sam_text hdr recs <> CRAM_MAGIC ++ r).
+    (sam_first_name_cram hdr recs = false -> forall r, sam_text hdr recs <> CRAM_MAGIC ++ r) /\
+    (forall r, sam_text hdr recs = CRAM_MAGIC ++ r -> exists b r', r = b :: r' /\ sam_cont b = true).
 Proof. exact sam_text_not_magic. Qed.
 Print Assumptions c20_sam_text_not_magic.
 
@@ -103,33 +114,26 @@ Theorem c20_detect_never_cram_bgzf : forall w i, detect_a w i <> Ok (Cram, CBgzf
 Proof. exact detect_a_never_cram_bgzf. Qed.
 Print Assumptions c20_detect_never_cram_bgzf.
 
-(* ---- what fails (each reproduced against the real builders, see known_findings.d/C20.json) ---- *)
+(* fewer than 4 inflated bytes: a clean end of the stream is answered SAM; only a decoder error
+   (a member cut off inside the window, a bad header) is reported *)
+Theorem c20_gz_short_payload :
+  forall r i, (length (avail i) < 4)%nat ->
+    detect_a (31 :: 139 :: r) i = match stop i with None => Ok (Sam, CBgzf) | Some e => Err e end.
+Proof. exact detect_a_gz_short. Qed.
+Print Assumptions c20_gz_short_payload.
 
-(* F13: the BGZF-compressed SAM of an empty header and no records, delivered whole, makes the
-   builder fail with UnexpectedEof instead of answering SAM *)
-Theorem c20_f13_refuted :
-  forall (bgzf : list N -> list N) (gunzip : list N -> inflated)
-    (H_magic : forall p, exists r, bgzf p = 31 :: 139 :: r)
-    (H_whole : forall p, gunzip (bgzf p) = mk_inflated p UnexpectedEof),
-    (length (bgzf []) <= BUF_CAP)%nat ->
-    exists s k, written_a bgzf Sam CBgzf false s /\ (length s <= Nat.min k BUF_CAP)%nat /\
-                detect_a (window s k) (gunzip (window s k)) = Err UnexpectedEof.
-Proof. exact f13_refuted. Qed.
-Print Assumptions c20_f13_refuted.
-
-(* F14: a header-less SAM whose first read name starts with CRAM is detected as CRAM *)
-Theorem c20_f14_refuted :
-  exists hdr recs, forallb sam_line_ok recs = true /\ sam_first_name_cram hdr recs = true /\
-    forall i, detect_a (window (sam_text hdr recs) 8192) i = Ok (Cram, CNone).
-Proof. exact f14_refuted. Qed.
-Print Assumptions c20_f14_refuted.
+(* ---- what still fails (known finding detect-short-first-read) ---- *)
 
 (* a short first read: raw BAM / CRAM / BCF are taken for SAM / VCF when the first read delivers
-   fewer bytes than the magic, any BGZF stream when it delivers one byte *)
+   fewer bytes than the magic; a header-less SAM whose first read is named CRAM... is taken for
+   CRAM when the first read delivers exactly four bytes; any BGZF stream is taken for raw SAM/VCF
+   when it delivers one byte *)
 Theorem c20_short_window_refuted :
   (forall rest i, detect_a (window (bam_payload rest) 3) i = Ok (Sam, CNone)) /\
   (forall major minor rest i, detect_a (window (cram_stream major minor rest) 3) i = Ok (Sam, CNone)) /\
-  (forall rest i, detect_v (window (bcf_payload rest) 2) i = Ok (Vcf, CNone)).
+  (forall rest i, detect_v (window (bcf_payload rest) 2) i = Ok (Vcf, CNone)) /\
+  (forall i, detect_a (window (sam_text [] [mk_sam_line (Some [67; 82; 65; 77; 49]) [52; 9; 42]]) 4) i
+             = Ok (Cram, CNone)).
 Proof. exact short_window_raw_refuted. Qed.
 Print Assumptions c20_short_window_refuted.
 
@@ -147,11 +151,11 @@ Print Assumptions c20_short_window_gz_refuted.
 (* a toy "BGZF" (gzip magic + stored payload) and its decoder satisfy the three premises, so the
    theorems above are not vacuous in their oracle hypotheses *)
 Definition toy_bgzf (p : list N) : list N := 31 :: 139 :: p.
-Definition toy_gunzip (w : list N) : inflated := mk_inflated (skipn 2 w) UnexpectedEof.
+Definition toy_gunzip (w : list N) : inflated := mk_inflated (skipn 2 w) None.
 Example c20_oracle_premises_satisfiable :
   (forall p, exists r, toy_bgzf p = 31 :: 139 :: r) /\
   (forall p m, exists n, avail (toy_gunzip (firstn m (toy_bgzf p))) = firstn n p) /\
-  (forall p, toy_gunzip (toy_bgzf p) = mk_inflated p UnexpectedEof).
+  (forall p, toy_gunzip (toy_bgzf p) = mk_inflated p None).
 Proof.
   split; [intro p; exists p; reflexivity|]. split; [|intro p; reflexivity].
   intros p m. unfold toy_gunzip, toy_bgzf. cbn [avail].
@@ -172,22 +176,32 @@ Proof.
 Qed.
 Print Assumptions c20_detect_written_full_statement_refuted.
 
-(* a header-less SAM with one read named "r1", BGZF-compressed, delivered whole: (SAM, BGZF);
-   and a read named "CRA" (not the F14 class) raw: SAM *)
+(* formerly F13: the BGZF-compressed SAM of an empty header and no records, delivered whole *)
+Example c20_example_f13_repaired :
+  written_a toy_bgzf Sam CBgzf false (toy_bgzf (sam_text [] [])) /\
+  detect_a (window (toy_bgzf (sam_text [] [])) 100) (toy_gunzip (window (toy_bgzf (sam_text [] [])) 100))
+    = Ok (Sam, CBgzf).
+Proof. split; [apply (WSamGz toy_bgzf [] []); reflexivity|vm_compute; reflexivity]. Qed.
+
+(* formerly F14: header-less SAM whose first read is named "CRAM1", resp. exactly "CRAM" *)
+Example c20_example_f14_repaired :
+  let recs1 := [mk_sam_line (Some [67; 82; 65; 77; 49]) [52; 9; 42]] in
+  let recs2 := [mk_sam_line (Some [67; 82; 65; 77]) [52; 9; 42]] in
+  forallb sam_line_ok recs1 = true /\ sam_first_name_cram [] recs1 = true /\
+  detect_a (window (sam_text [] recs1) 100) (mk_inflated [] None) = Ok (Sam, CNone) /\
+  detect_a (window (sam_text [] recs2) 100) (mk_inflated [] None) = Ok (Sam, CNone) /\
+  detect_a (window (cram_stream 3 0 [0; 0]) 100) (mk_inflated [] None) = Ok (Cram, CNone) /\
+  cram_major_ok 1 = true /\ cram_major_ok 2 = true /\ cram_major_ok 3 = true /\ cram_major_ok 4 = true.
+Proof. repeat split. Qed.
+
 Example c20_example_samgz :
   let s := toy_bgzf (sam_text [] [mk_sam_line (Some [114; 49]) [52; 9; 42]]) in
   written_a toy_bgzf Sam CBgzf false s /\
   detect_a (window s 100) (toy_gunzip (window s 100)) = Ok (Sam, CBgzf).
 Proof. split; [apply WSamGz; reflexivity|vm_compute; reflexivity]. Qed.
 
-Example c20_example_cra :
-  let recs := [mk_sam_line (Some [67; 82; 65]) [52; 9; 42]] in
-  forallb sam_line_ok recs = true /\ sam_first_name_cram [] recs = false /\
-  detect_a (window (sam_text [] recs) 100) (mk_inflated [] UnexpectedEof) = Ok (Sam, CNone).
-Proof. repeat split. Qed.
-
 Example c20_example_bam :
   detect_a (window (toy_bgzf (bam_payload [0;0;0;0])) 8192) (toy_gunzip (window (toy_bgzf (bam_payload [0;0;0;0])) 8192))
     = Ok (Bam, CBgzf)
-  /\ detect_v (window (bcf_payload [0]) 3) (mk_inflated [] UnexpectedEof) = Ok (Bcf, CNone).
+  /\ detect_v (window (bcf_payload [0]) 3) (mk_inflated [] None) = Ok (Bcf, CNone).
 Proof. split; vm_compute; reflexivity. Qed.
